@@ -115,7 +115,7 @@ CLAIMED["C10"] = (
     "MbootSerialProtocol.read — against a ghost device whose device-to-host stream is universally quantified (any bytes, any length, so every "
     "corrupted byte, truncation or missing response is inside the quantifier) — returns a payload only for a frame of the declared length whose "
     "CRC matches, for DATA and CMD frames alike, raises only the documented exceptions otherwise, and always acknowledges the frame. "
-    "USB-HID framing, McuBoot operations (data phases, status mirroring), SDP/SDPS and 'within bounded time' are NOT decided here. Added: McuBoot.read_memory (USB-HID chunked path for packet sizes 32/56/1016 and the single-command path, any address, lengths 0..64 KiB, loop by inductive invariant): success status implies exactly the requested device bytes, whatever is returned is a prefix of the device bytes - against an ASSUMED device model (ghost memory; _process_cmd / _read_data behave as the reference bootloader). Added (round 3): USB-HID report framing - _create_frame = id, pad, 16-bit LE length, payload; _parse_frame hands out exactly the announced payload for every 16-bit length, zero length = abort. Added later: CmdPacket.to_bytes (tag, flags, count, parameters LE32 in order, zero padding), GenericResponse / GetPropertyResponse constructors (status, command tag, property values as sent).",
+    "USB-HID framing, McuBoot operations (data phases, status mirroring), SDP/SDPS and 'within bounded time' are NOT decided here. Added: McuBoot.read_memory (USB-HID chunked path for packet sizes 32/56/1016 and the single-command path, any address, lengths 0..64 KiB, loop by inductive invariant): success status implies exactly the requested device bytes, whatever is returned is a prefix of the device bytes - against an ASSUMED device model (ghost memory; _process_cmd / _read_data behave as the reference bootloader). Added (round 3): USB-HID report framing - _create_frame = id, pad, 16-bit LE length, payload; _parse_frame hands out exactly the announced payload for every 16-bit length, zero length = abort. Added later: CmdPacket.to_bytes (tag, flags, count, parameters LE32 in order, zero padding), GenericResponse / GetPropertyResponse constructors (status, command tag, property values as sent). Added (round 5): ReadMemory / FlashReadResource / KeyProvisioning / FlashReadOnce / TrustProvisioning responses: status, length, value words and data are the words the device sent, in order.",
     "Trusted: CRC as an uninterpreted function (C09), assumed contracts for the wall-clock wait loop and for response decoding, frame layout "
     "verified for payload lengths 0/1/4/32 and assumed for the others at call sites, A-enc, A-smt, A-struct. Known design-time findings #28/#29 "
     "(partial data with SUCCESS status; struct.error from response constructors) are not covered by a check. Assumed contracts (device model): McuBoot._process_cmd, McuBoot._read_data - a data phase that ends with SUCCESS but delivered fewer bytes than announced is outside this model: the bounded fault-injection sweep (bounded/C10.py) shows it is mishandled - known finding C10-KF1.",
@@ -125,7 +125,7 @@ CLAIMED["C13"] = (
     "the BEE protected window BeeProtectRegionBlock.update = [lowest FAC start, highest FAC end) for 0..3 regions in any order, plus "
     "is_inside_region. The statement's main clause (the hardware decrypts what SPSDK encrypts, locality, key-blob unwrap) is only a bounded "
     "check here: per-16-byte-block hardware models for OTFAD and BEE over seeded blobs / regions / bases (known finding C13-KF1 for bases that "
-    "are not 1 KiB aligned). IEE is not covered. Added: IeeKeyBlob.encrypt_image_ctr - every 16 bytes are AES-CTR'ed with the counter of their own absolute address (nonce word + address>>4 with 32-bit wrap, never carrying into the nonce), for 1..3 blocks, 128/256-bit keys, all keys/nonces/addresses; AES_CTR carries the counter-mode definition law (multi-block = per-block with the 128-bit counter advanced).",
+    "are not 1 KiB aligned). IEE is not covered. Added: IeeKeyBlob.encrypt_image_ctr - every 16 bytes are AES-CTR'ed with the counter of their own absolute address (nonce word + address>>4 with 32-bit wrap, never carrying into the nonce), for 1..3 blocks, 128/256-bit keys, all keys/nonces/addresses; AES_CTR carries the counter-mode definition law (multi-block = per-block with the 128-bit counter advanced). Added (round 5): OTFAD KeyBlob.encrypt_image: every 16 bytes are encrypted with the counter block of their own system address when no counter is named (data anywhere inside the blob; 1-2 blocks) - this exposed and now guards the repaired defect that the counter started at the blob start; bounded single-blob sweep against the hardware model.",
     "Trusted: AES as external (A-crypto-fun); encrypt_image loops (OTFAD/IEE/BEE), key-blob export/unwrap and KEK scrambling are NOT under contract; A-enc, A-smt.",
     "DESIGN.md 7 C13")
 CLAIMED["C15"] = (
@@ -133,7 +133,7 @@ CLAIMED["C15"] = (
     "it is proved for all contents that the message handed to the signer is exactly credential || LE32(beacon) || [device UUID taken from the "
     "challenge, ECC versions] || challenge vector, and that the exported response is credential || LE32(beacon) || [device UUID] || signature over "
     "that message — so a response is bound to the credential, beacon, device UUID and challenge (injectivity: all parts have fixed or "
-    "credential-determined lengths). 'Never verifies against another challenge' then rests on the signature scheme (not claimed). Added: RotMetaRSA.export / calculate_hash - the RoT table is four 32-byte slots in key order with missing slots zero and its hash is the image tool's RKTH, for 1..4 keys. Added (round 3): lemmas joining the DC side (hash of the raw X || Y export) and the image side (RKHT._calc_key_hash) for P-256 / P-384 keys incl. leading-zero coordinates; both callee contracts are re-verified under this property. Added later: ECC debug credential _get_data_to_sign / export byte layouts (the signature follows exactly the signed bytes; every field in its place), RotMetaFlags export and parse-inverts-export. Added (round 5): EdgeLock-Enclave debug credential: signed bytes and exported bytes field by field (version, SoC class, UUID, SOCU, VU, beacon, RoT meta, debug key).",
+    "credential-determined lengths). 'Never verifies against another challenge' then rests on the signature scheme (not claimed). Added: RotMetaRSA.export / calculate_hash - the RoT table is four 32-byte slots in key order with missing slots zero and its hash is the image tool's RKTH, for 1..4 keys. Added (round 3): lemmas joining the DC side (hash of the raw X || Y export) and the image side (RKHT._calc_key_hash) for P-256 / P-384 keys incl. leading-zero coordinates; both callee contracts are re-verified under this property. Added later: ECC debug credential _get_data_to_sign / export byte layouts (the signature follows exactly the signed bytes; every field in its place), RotMetaFlags export and parse-inverts-export. Added (round 5): EdgeLock-Enclave debug credential: signed bytes and exported bytes field by field (version, SoC class, UUID, SOCU, VU, beacon, RoT meta, debug key). DAC export layout; RSA debug credential (protocol 1.0 / 1.1) signed and exported bytes field by field.",
     "Trusted: the signature provider as an uninterpreted function (A-crypto-fun / A-crypto-sec not claimed), A-enc, A-smt, A-struct. The debug "
     "credential classes (export/parse/_get_data_to_sign, RoT meta; RoT hash equality with C03), challenge parsing, EdgeLock-enclave v2 responses "
     "and the YAML front end are NOT under contract.",
@@ -154,7 +154,7 @@ CLAIMED["C06"] = (
     "Verifier.add_record_bit_range records ERROR exactly when the value is missing or outside [0, 2^bits) — with C20's truthful check_range this "
     "is what makes 'a valid image is never reported as erroneous' hold for the SW/fuse version records (repaired defect). Container, image-array, "
     "signature-block and SRK layouts, hashing, signing, offsets and disjointness are NOT under contract: bounded build/parse/verify of the "
-    "repository's example configurations only. Added: ImageArrayEntry.get_hash_from_flags returns the algorithm the entry declares for every computable hash tag (SHA-256/384/512, SM3) of container versions 1 and 2, and create_flags packs type / core / hash / encrypted / boot flags into their fields. Added (round 3): SRKRecordBase.parameter_lengths (first = modulus / X length, second = exponent / Y length, two LE16) for every key-size code, _crypto_params_length. Added later: signature block update_fields (offsets of SRK assets / signature / certificate / blob 8-byte aligned, in order, never colliding; block length covers every part) with abstract parts; AHABContainer.header_length; image array entry meta data word and flag readers.",
+    "repository's example configurations only. Added: ImageArrayEntry.get_hash_from_flags returns the algorithm the entry declares for every computable hash tag (SHA-256/384/512, SM3) of container versions 1 and 2, and create_flags packs type / core / hash / encrypted / boot flags into their fields. Added (round 3): SRKRecordBase.parameter_lengths (first = modulus / X length, second = exponent / Y length, two LE16) for every key-size code, _crypto_params_length. Added later: signature block update_fields (offsets of SRK assets / signature / certificate / blob 8-byte aligned, in order, never colliding; block length covers every part) with abstract parts; AHABContainer.header_length; image array entry meta data word and flag readers. Added (round 5): the 128-byte image array entry record (offset, size, load address, entry point, flags, meta data, hash left-aligned and zero-padded to 64, IV), signature container and DEK blob heads (length fields cover head + payload), SRK record layout for every key-size code, SRK table export (head, four records in key order) and the fuse value = digest of exactly the exported table.",
     "Trusted: A-enc, A-smt. Everything outside the two units above is unverified here; 'corruption is reported' rests on the primitives (not claimed).",
     "DESIGN.md 7 C06")
 CLAIMED["C12"] = (
@@ -188,7 +188,7 @@ CLAIMED["C07"] = (
     "Everything else of the property - CSF commands and offsets, CMS signatures verified independently, SRK table/fuses, AES-CCM "
     "encryption, parse round trip, DCD/XMCD, the BDT length itself - is NOT decided deductively: a bounded sweep builds authenticated and plain "
     "images (RSA-2048 repository test keys) over three layouts x application lengths dense around the 16 B / 4 KiB boundaries and decodes "
-    "them by hand incl. an independent CMS digest/signature check, labelled bounded. Added: plain-image boot data, IVT / boot-data binary layouts with parse-inverts-export lemmas, SRK table items (ECC P-256/384/521, RSA) export layouts with parse-inverts-export lemmas; bounded: encrypted example image with every MAC length decrypted independently with AES-CCM. Added later: XMCD header byte layout / parse-inverts-export, SegXMCD.size, CSF Authenticate Data command (append / export: the block list as given, big-endian), MAC structure export / parse; bounded: authenticated image with an XMCD block (signature must cover it).",
+    "them by hand incl. an independent CMS digest/signature check, labelled bounded. Added: plain-image boot data, IVT / boot-data binary layouts with parse-inverts-export lemmas, SRK table items (ECC P-256/384/521, RSA) export layouts with parse-inverts-export lemmas; bounded: encrypted example image with every MAC length decrypted independently with AES-CCM. Added later: XMCD header byte layout / parse-inverts-export, SegXMCD.size, CSF Authenticate Data command (append / export: the block list as given, big-endian), MAC structure export / parse; bounded: authenticated image with an XMCD block (signature must cover it). Added (round 5): CSF Install Key command (flags, key format, hash algorithm, source/target index, location as the ROM reads them; parse inverts export) and NOP.",
     "Trusted: A-enc, A-smt; BinaryImage.__len__/export and align_block through their verified contracts (C16/C20). Not under contract: "
     "CsfHabSegment/BdtHabSegment/Dcd/Xmcd.load_from_config, HabContainer.*, image/segments.py, image/commands.py, crypto/cms.py, secret.py "
     "(A-crypto-fun, A-crypto-sec, A-pki). Encrypted images, ECC keys, SRK tables other than the test table: not exercised even bounded.",
